@@ -74,11 +74,14 @@ func classify(more, nonStart error) func(error) string {
 // ---- hand-built cases (the generic runner's helpers are not exported) ----------------------
 
 type caseB struct {
-	s  *cu.Spec
-	cs corr.Case
+	s       *cu.Spec
+	cs      corr.Case
+	classes map[string]int
 }
 
-func newCase(s *cu.Spec, name string) *caseB { return &caseB{s: s, cs: corr.Case{Name: name}} }
+func newCase(s *cu.Spec, name string) *caseB {
+	return &caseB{s: s, cs: corr.Case{Name: name}, classes: map[string]int{}}
+}
 
 func (b *caseB) op(op, impl string) {
 	b.cs.Ops = append(b.cs.Ops, b.s.Name+" "+op)
@@ -168,6 +171,7 @@ func (b *caseB) dec(d cu.Decoder, p *rtp.Packet) (f cu.Frame, cls string) {
 	if cls == "ok" {
 		out = "ok " + unitsStr(f)
 	}
+	b.classes[cls]++
 	out += fmt.Sprintf(" ret %d", cu.Retained(d.State()))
 	b.op(fmt.Sprintf("dec %d %d %s %s", p.SequenceNumber, p.Timestamp, corr.B(p.Marker), corr.Hex(p.Payload)), out)
 	return f, cls
